@@ -197,3 +197,13 @@ package types
 //@ props C18
 //@ theory coins keys bytes
 //@ ensures [C18] exact_layout: result == mkRID(requestContextID, requestContextBatchCounter, requestHeight, batchRequestIndex)
+
+//@ func GenerateRequestContextID
+//@ props C18
+//@ theory coins keys bytes
+//@ ensures [C18] exact_layout: result == mkCtxID(txHash, msgIndex)
+
+//@ func ValidateRequest
+//@ props C10 C09
+//@ trusted
+//@ ensures err == NoErr ==> timeout > 0 && len(providers) > 0 && (repeated ==> (repeatedFrequency == 0 || repeatedFrequency >= timeout) && (repeatedTotal == -1 || repeatedTotal >= 1))
